@@ -28,7 +28,7 @@ def main():
             import check_framing as M
         elif a.prop == 'C20':
             import check_msglog as M
-        elif a.prop in ('C06', 'C08', 'C09', 'C14'):
+        elif a.prop in ('C06', 'C08', 'C09', 'C14', 'C17'):
             import check_codec as M
         else:
             print('unknown property %s' % a.prop, file=sys.stderr)
